@@ -165,6 +165,9 @@ def role_fn(P, name):
             continue
     if len(cands) == 1:
         return cands[0]
+    named = [g for g in cands if g.name == name.split("::")[-1]]
+    if len(named) == 1:
+        return named[0]      # several functions share the role (a piece was split off): the one that kept the name
     raise AnchorMissing("function `%s` not found by name, and %d functions have its role%s"
                         % (name, len(cands), (" " + str(sorted(short(c.path) for c in cands))) if cands else ""))
 
@@ -636,8 +639,15 @@ class KindEval:
         if "Ctor(" in (f.get("dk") or n.get("callee_dk") or ""):
             states, abn = self._seq(n["args"], env, evs)
             d = norm(f.get("ctor_of") or f.get("def") or c)
-            val = V(d.split("::")[-1]) if "Variant" in (f.get("dk") or n.get("callee_dk") or "") else None
-            return [("ok", val, n, e, (self._emit(v, "ctor", d, n) if d.startswith(ERR + "::") else v), None) for _, e, v in states] + abn
+            name = d.split("::")[-1]
+            is_var = "Variant" in (f.get("dk") or n.get("callee_dk") or "")
+            outs = []
+            for vals, e, v in states:
+                val = V(name) if is_var else None
+                if is_var and name in ("Some", "Ok", "Err") and len(vals) == 1 and vals[0] is not None:
+                    val = ("v", name, vals[0])      # the payload of an Option / Result is kept when it is known
+                outs.append(("ok", val, n, e, (self._emit(v, "ctor", d, n) if d.startswith(ERR + "::") else v), None))
+            return outs + abn
         if c.startswith(("core::panicking::", "std::panicking::", "core::option::unwrap_failed", "core::result::unwrap_failed",
                          "core::option::expect_failed")):
             states, abn = self._seq(n["args"], env, evs)
@@ -691,15 +701,25 @@ class KindEval:
         states, abn = self._seq(argnodes, env, evs)
         outs = list(abn)
         g = self.P.fns.get(c) if c else None
+        if g is None and n.get("method") == "into" and c.endswith("core::convert::Into>::into") or (g is None and c == "core::convert::Into::into"):
+            # `x.into()` is the workspace's `impl From<X> for T` when there is one for the type the call yields
+            g = self.P.fns.get("<%s as core::convert::From>::from" % norm(n.get("t") or ""))
+            if g is not None and len(g.params) != 1:
+                g = None
         for vals, e, v in states:
             v = self._emit(v, "call", c, n, vals)
             m = n.get("method")
             val = None
-            if m in ("is_some", "is_none", "is_ok", "is_err") and vals and vals[0] is not None and vals[0][0] == "v" \
-                    and vals[0][1] in ("Some", "None", "Ok", "Err"):
-                val = ("b", vals[0][1] == {"is_some": "Some", "is_none": "None", "is_ok": "Ok", "is_err": "Err"}[m])
+            r0 = vals[0] if vals else None
+            if m in ("is_some", "is_none", "is_ok", "is_err") and r0 is not None and r0[0] == "v" and r0[1] in ("Some", "None", "Ok", "Err"):
+                val = ("b", r0[1] == {"is_some": "Some", "is_none": "None", "is_ok": "Ok", "is_err": "Err"}[m])
                 outs.append(("ok", val, n, e, v, None))
                 continue
+            if g is None and r0 is not None and n.get("k") == "MethodCall":
+                done = self._combinator(n, m, r0, vals, e, v)
+                if done is not None:
+                    outs.extend(done)
+                    continue
             if g is not None and self._may_enter(g):
                 v = self._emit(v, "enter", c, n)
                 penv = {}
@@ -713,6 +733,34 @@ class KindEval:
                 continue
             outs.append(("ok", None, n, e, v, None))
         return outs
+
+    def _combinator(self, n, m, r0, vals, env, evs):
+        """std combinators on a known Option / bool that only select between the payload and a fallback"""
+        if r0[0] == "v" and r0[1] in ("Some", "None"):
+            payload = r0[2] if len(r0) > 2 else None
+            if m in ("unwrap", "expect") and r0[1] == "Some":
+                return [("ok", payload, n, env, evs, None)]
+            if m in ("unwrap_or", "unwrap_or_else", "unwrap_or_default"):
+                if r0[1] == "Some":
+                    return [("ok", payload, n, env, evs, None)]
+                if m == "unwrap_or":
+                    return [("ok", vals[1] if len(vals) > 1 else None, n, env, evs, None)]
+                if m == "unwrap_or_else" and n["args"] and n["args"][0].get("k") == "Closure":
+                    outs = []
+                    for o in self.ev(n["args"][0]["body"], env, evs):
+                        if o[0] in ("ok", "ret"):
+                            outs.append(("ok", o[1], o[2], env, o[4], None))
+                        elif o[0] == "div":
+                            outs.append(("div", None, n, env, o[4], None))
+                    return outs
+        if r0[0] == "b" and m in ("then_some", "then"):
+            if not r0[1]:
+                return [("ok", V("None"), n, env, evs, None)]
+            if m == "then_some":
+                p = vals[1] if len(vals) > 1 else None
+                return [("ok", ("v", "Some", p) if p is not None else V("Some"), n, env, evs, None)]
+            return [("ok", V("Some"), n, env, evs, None)]
+        return None
 
     # ---- patterns
     def _refine(self, scrut, pat, env):
@@ -796,8 +844,11 @@ class KindEval:
                     res = None
             elif not d:
                 res = None
+            payload = v[2] if (is_variant and v is not None and v[0] == "v" and len(v) > 2 and len(subs) == 1) else None
             for p in subs:
-                r, env = self._test(p, None, env)
+                r, env = self._test(p, payload, env)
+                if r is False:
+                    return False, env
                 if r is not True and res is True:
                     res = None
             return res, env
@@ -1410,9 +1461,9 @@ def _stack_params(f, pv=None, P=None):
 
 
 def same_job(f, g):
-    """`g` is a piece split off `f`: a helper without a result that takes the same distinguishing parameter types (for the
-    applicability helper: two type definitions; for the value checker: a value — or the variable it is — and a type)"""
-    if (g.sig_output or "()") != "()" or g.crate != f.crate:
+    """`g` is a piece split off `f`: a helper (with or without a result) that takes the same distinguishing parameter types (for
+    the applicability helper: two type definitions; for the value checker: a value — or the variable it is — and a type)"""
+    if g.crate != f.crate or g.path == f.path:
         return False
     if _takes(f, T_TYPEDEF) >= 2:
         return _takes(g, T_TYPEDEF) >= 2
@@ -1813,7 +1864,7 @@ def r03e(P, R):
 OP_RULE_SITES = {
     "UnNamedOperationMustBeSingle": 1, "DuplicateOperationName": 1, "DuplicateFragmentName": 1, "NoRootType": 1,
     "SubscriptionMustHaveExactlyOneRootField": 1, "SelectionOnInvalidType": 1, "MustSpecifySelectionSet": 1, "FieldNotFound": 1,
-    "DuplicatedVariableName": 1, "InvalidFragmentTarget": 1, "UnknownFragment": 1, "FragmentConditionNeverMatches": 6,
+    "DuplicatedVariableName": 1, "InvalidFragmentTarget": 1, "UnknownFragment": 1, "FragmentConditionNeverMatches": 1,   # how many (scope, condition) cases report it: R04-d, per pair
     "RecursingFragmentSpread": 1, "UnknownDirective": 1, "DirectiveLocationNotAllowed": 1, "RepeatedDirective": 1,
     "ArgumentsNotNeeded": 1, "RequiredArgumentNotSpecified": 1, "TypeMismatch": 1, "UnknownVariable": 1, "UnknownEnumMember": 1,
     "UnknownArgument": 1, "RequiredFieldNotSpecified": 1, "UnknownField": 1, "NoOutputType": 1, "UnknownType": 4,
@@ -2020,7 +2071,7 @@ def r03i(P, R):
     try:
         for k in ALL_KINDS:
             res = KindEval(P, want=lambda ev: False).run(d, {0: V(k)})
-            vals = {v for v, _, _ in res}
+            vals = {(v[:2] if (v is not None and v[0] == "v") else v) for v, _, _ in res}
             if vals == {V("Some")}:
                 some.add(k)
                 srcs[k] = [s for _, _, s in res]
@@ -2198,8 +2249,14 @@ def _r04c(P, R):
     r04c(P, R)
 
 
+def _r04d(P, R):
+    # fragment applicability (shared with C04): a (scope, condition) pair without a reporting path accepts an impossible spread
+    from c04 import r04d
+    r04d(P, R)
+
+
 RULES = [("R03-a", r03a), ("R03-b", r03b), ("R03-c", r03c), ("R03-d", r03d), ("R03-e", r03e), ("R03-f", r03f), ("R03-j", r03j),
-         ("R03-g", r03g), ("R03-h", r03h), ("R03-i", r03i), ("R04-c", _r04c)]
+         ("R03-g", r03g), ("R03-h", r03h), ("R03-i", r03i), ("R04-c", _r04c), ("R04-d", _r04d)]
 EXPLANATION = (
     "`check` applies every implemented rule at every position it governs, decided for all documents: (R03-a) non-interference — "
     "every content field of the executable AST is read by a function reachable from check_operation_document and the sum types are "
